@@ -251,6 +251,7 @@ class WorkQueue:
         self._channel: Queue[Any] = Queue()
         self._stopped = False
         self._pump_tasks: set[Task[None]] = set()
+        self._cleanup_futures: set[Future[Any]] = set()
 
         new_groups, new_streams = self._maybe_integrate_work(initial_work)
         non_empty_initial_root_groups = self._prune_empty_groups(new_groups)
@@ -305,6 +306,7 @@ class WorkQueue:
         for pump_task in self._pump_tasks:
             pump_task.cancel()
         cancel_awaitables.extend(self._pump_tasks)
+        cancel_awaitables.extend(self._cleanup_futures)
         if cancel_awaitables:
             await gather(*cancel_awaitables, return_exceptions=True)
 
@@ -672,11 +674,27 @@ class WorkQueue:
         del group_nodes[group]
         for task in list(group_node.tasks):
             if all(task_group not in group_nodes for task_group in task.groups):
+                self._abort_removed_task(task)
                 self._remove_task(task)
         for child_group in group_node.child_groups:
             child_group_node = group_nodes.get(child_group)
             if child_group_node:
                 self._remove_group(child_group, child_group_node)
+
+    def _abort_removed_task(self, task: WorkTask) -> None:
+        """Abort a task that no group is waiting for any more, with its work.
+
+        The task may still be running or may already have produced streams
+        that will never be delivered now; the asynchronous part of the cleanup
+        is settled in the background and awaited when the queue is cancelled.
+        """
+        cancel_awaitables: list[Awaitable[Any]] = []
+        self._cancel_task(task, None, cancel_awaitables)
+        if cancel_awaitables:
+            future = gather(*cancel_awaitables, return_exceptions=True)
+            cleanup_futures = self._cleanup_futures
+            cleanup_futures.add(future)
+            future.add_done_callback(cleanup_futures.discard)
 
     def _remove_task(self, task: WorkTask) -> None:
         """Remove a task from all its groups and from the graph."""
